@@ -298,6 +298,17 @@ func opProof(_ *HState, a Event) Event {
 		}
 		x["items"] = it
 		e["extract"] = x
+		// the same object asked again gives the same root, hashes and positions
+		root2 := pb.ExtractMatches()
+		it2 := []int{}
+		for _, v := range pb.GetItems() {
+			it2 = append(it2, int(v))
+		}
+		x2 := map[string]interface{}{"ok": root2 != nil, "root": []int{}, "matches": hashesInts(pb.GetMatches()), "items": it2}
+		if root2 != nil {
+			x2["root"] = ints(root2[:])
+		}
+		e["extract2"] = x2
 	})
 	if hung {
 		p, pmsg = true, "proof construction did not return within 60s (hang)"
@@ -390,6 +401,11 @@ func runC11(c *Ctx) {
 			}
 		}
 		c.Call(Event{"op": "Proof", "n": nn, "matched": []int{}, "salt": int(r.Int31n(50000)), "desc": desc, "order": ord, "fitems": fit, "flags": 1 + k%2})
+	}
+	// sparse choices in a 4096-transaction block: whole flag bytes of zeros (eight unflagged nodes in a row) directly
+	// followed by a flagged node
+	for _, m := range [][]int{{3584, 3840}, {0, 256}, {2048, 2304, 4095}, {255, 256}, {3585, 3840}} {
+		proof(4096, m)
 	}
 	// block sizes around and above 1024 / 2048 that are not multiples of 2, 4, 8 (leaf hashing or level building split
 	// between several workers leaves a remainder; the last leaves are chosen)
